@@ -33,11 +33,22 @@ package types
 //@   ensures result.Owner == owner
 //@ func NewEventProviderDeleted
 //@   ensures result.Owner == owner
+//@ lemma attrsProv(attrs: []sdk.Attribute)
+//@   requires len(attrs) == 3 && attrs[0].Key == "module" && attrs[1].Key == "action" && attrs[2].Key == "owner"
+//@   ensures attrHas(attrs, "module") && attrVal(attrs, "module") == attrs[0].Value && attrHas(attrs, "action") && attrVal(attrs, "action") == attrs[1].Value && attrHas(attrs, "owner") && attrVal(attrs, "owner") == attrs[2].Value
+//@   trigger attrFirst(attrs, "module", len(attrs))
+//@   trigger attrFirst(attrs, "owner", len(attrs))
 //@ func (EventProviderCreated).ToSDKEvent
+//@   uses attrsProv
+//@   ensures [shape] len(evAttrs(result)) == 3 && evAttrs(result)[0].Key == "module" && evAttrs(result)[0].Value == "provider" && evAttrs(result)[1].Key == "action" && evAttrs(result)[1].Value == "provider-created" && evAttrs(result)[2].Key == "owner" && evAttrs(result)[2].Value == bech32(ev.Owner)
 //@   ensures evType(result) == "akash.v1" && carriesPHead(evAttrs(result), "provider-created") && carriesProv(evAttrs(result), ev.Owner)
 //@ func (EventProviderUpdated).ToSDKEvent
+//@   uses attrsProv
+//@   ensures [shape] len(evAttrs(result)) == 3 && evAttrs(result)[0].Key == "module" && evAttrs(result)[0].Value == "provider" && evAttrs(result)[1].Key == "action" && evAttrs(result)[1].Value == "provider-updated" && evAttrs(result)[2].Key == "owner" && evAttrs(result)[2].Value == bech32(ev.Owner)
 //@   ensures evType(result) == "akash.v1" && carriesPHead(evAttrs(result), "provider-updated") && carriesProv(evAttrs(result), ev.Owner)
 //@ func (EventProviderDeleted).ToSDKEvent
+//@   uses attrsProv
+//@   ensures [shape] len(evAttrs(result)) == 3 && evAttrs(result)[0].Key == "module" && evAttrs(result)[0].Value == "provider" && evAttrs(result)[1].Key == "action" && evAttrs(result)[1].Value == "provider-deleted" && evAttrs(result)[2].Key == "owner" && evAttrs(result)[2].Value == bech32(ev.Owner)
 //@   ensures evType(result) == "akash.v1" && carriesPHead(evAttrs(result), "provider-deleted") && carriesProv(evAttrs(result), ev.Owner)
 //@ func ParseEvent
 //@   ensures [foreign] ev.Type != "akash.v1" || ev.Module != "provider" ==> result1 != nil
@@ -48,5 +59,5 @@ package types
 //@   ensures [deleted] forall a: str {bech32(a)} :: ev.Type == "akash.v1" && ev.Module == "provider" && ev.Action == "provider-deleted" && old(carriesProv(ev.Attributes, a)) ==>
 //@        result1 == nil && typeis(result0, EventProviderDeleted) && unbox(result0, EventProviderDeleted).Owner == a
 
-//@ property C16 := ProviderEVAttributes#*, ParseEVProvider#*, NewEventProviderCreated#*, NewEventProviderUpdated#*, NewEventProviderDeleted#*,
+//@ property C16 := lemma:attrsProv, ProviderEVAttributes#*, ParseEVProvider#*, NewEventProviderCreated#*, NewEventProviderUpdated#*, NewEventProviderDeleted#*,
 //@     (EventProviderCreated).ToSDKEvent#*, (EventProviderUpdated).ToSDKEvent#*, (EventProviderDeleted).ToSDKEvent#*, ParseEvent#*
